@@ -66,6 +66,16 @@ func (r *RaceScenario) PostDrain(k *sim.Kernel, left []string) []sim.Violation {
 	return nil
 }
 func (r *RaceScenario) NonTrivial(k *sim.Kernel) bool { return r.inner().NonTrivial(k) }
+
+// Forgive is the wrapped scenario's.
+func (r *RaceScenario) Forgive(k *sim.Kernel, v sim.Violation) bool {
+	if f, ok := r.inner().(interface {
+		Forgive(k *sim.Kernel, v sim.Violation) bool
+	}); ok {
+		return f.Forgive(k, v)
+	}
+	return false
+}
 func (r *RaceScenario) Shrinks() []Scenario {
 	var out []Scenario
 	for _, c := range r.inner().Shrinks() {
@@ -121,7 +131,7 @@ func genC16(seed uint64, tier string) Scenario {
 	switch k := g.IntN(16); {
 	case k >= 10 && k < 13:
 		// cancelled and expiring operations, helper goroutines, buffer reuse
-		return wrapRace("stream", genC17(seed, tier))
+		return wrapRace("stream", genC17Stream(seed, tier))
 	case k == 13:
 		return wrapRace("e2e", genC03(seed, tier))
 	case k == 14:
